@@ -203,6 +203,27 @@ func main() {
 			}
 		}
 	}
+	// stream buffer sizes other than the default: a response is the backend's bytes whatever size the engine reads in
+	if vlib.ReplayPath() == "" {
+		for i, sc := range scs {
+			switch i % 3 {
+			case 1:
+				sc.StreamBufferSize = 16384
+			case 2:
+				sc.StreamBufferSize = vlib.Pick(r, []int{1024, 32768, 65536})
+			}
+		}
+		for _, engine := range []string{"sherpa", "olla"} {
+			for _, buf := range []int{16384, 65536} {
+				for _, chunked := range []bool{false, true} {
+					sc := &scen.Scenario{Engine: engine, Balancer: "priority", Profile: "auto", Method: "POST", Path: "/olla/proxy/v1/chat/completions", ReqBody: `{}`, StreamBufferSize: buf}
+					e := scen.EPSpec{Name: names[0], Prio: prios[0], Beh: scen.OkBeh(names[0], 200, 45000, chunked, "application/json")}
+					sc.EPs = append(sc.EPs, e)
+					scs = append(scs, sc)
+				}
+			}
+		}
+	}
 	var mu sync.Mutex
 	out := make([]*scen.Obs, len(scs))
 	scen.ParallelMap(len(scs), 16, func(i int) {
